@@ -5,4 +5,5 @@ import (
 	_ "hv/props/c01"
 	_ "hv/props/c04"
 	_ "hv/props/c05"
+	_ "hv/props/c06"
 )
